@@ -670,6 +670,65 @@ def h_load(
     return {"outcome": "value", **describe(obj)}
 
 
+def h_touch(world, seed):
+    """Edit live objects of an already materialised world *in place* (same
+    Python objects, same identifiers, new field values), the way a program
+    that holds a collection edits it between two saves."""
+    import random  # noqa: PLC0415
+
+    w = WORLDS.get(world)
+    if w is None:
+        return {"outcome": "skipped"}
+    rng = random.Random(seed)
+    done = []
+
+    def pick(pool):
+        return rng.choice(pool) if pool else None
+
+    for _ in range(rng.randint(2, 6)):
+        kind = rng.randrange(9)
+        if kind == 0 and (u := pick(w.users)) is not None:
+            u.name = f"touched {seed} {rng.randrange(1000)}"
+            done.append("user.name")
+        elif kind == 1 and (r := pick(w.recordings)) is not None:
+            r.latitude = rng.uniform(-90, 90)
+            r.rights = f"rights {rng.randrange(1000)}"
+            done.append("recording.latitude/rights")
+        elif kind == 2 and (r := pick(w.recordings)) is not None and w.tags:
+            if r.tags and rng.random() < 0.5:
+                r.tags.pop()
+            else:
+                r.tags.append(rng.choice(w.tags))
+            done.append("recording.tags")
+        elif kind == 3 and (a := pick(w.se_annotations)) is not None:
+            a.tags.reverse()
+            if a.notes:
+                a.notes[0].message = f"edited {rng.randrange(1000)}"
+                a.notes[0].is_issue = not a.notes[0].is_issue
+            done.append("annotation.tags/notes")
+        elif kind == 4 and (c := pick(w.clips)) is not None:
+            c.end_time = c.end_time + 1.0
+            done.append("clip.end_time")
+        elif kind == 5 and (p := pick(w.se_predictions)) is not None:
+            p.score = rng.random()
+            done.append("prediction.score")
+        elif kind == 6 and (m := pick(w.matches)) is not None:
+            m.affinity = rng.random()
+            done.append("match.affinity")
+        elif kind == 7 and (t := pick(w.tasks)) is not None:
+            if t.status_badges:
+                t.status_badges.pop()
+            done.append("task.badges")
+        elif kind == 8 and w.roots:
+            root = w.roots[rng.choice(sorted(w.roots))]
+            if hasattr(root, "description"):
+                root.description = f"described {rng.randrange(1000)}"
+            if hasattr(root, "name"):
+                root.name = f"name {rng.randrange(1000)}"
+            done.append("root.name/description")
+    return {"outcome": "ack", "edits": done}
+
+
 def h_forget(handle):
     OBJECTS.pop(handle, None)
     return {"outcome": "ack"}
@@ -681,6 +740,7 @@ HANDLERS = {
     "save": h_save,
     "load": h_load,
     "forget": h_forget,
+    "touch": h_touch,
 }
 
 
